@@ -92,11 +92,15 @@ def gen_groups(rng):
         spec = {}
         if r < 0.3:
             n = rng.choice([0, 1, 1, 2, 3, 5, 12]) if kind == "agents" else rng.choice([1, 1, 2, 3, 6])
+            if r < 0.02:
+                n = [256, 257, 300, 400][int(r * 200) % 4]        # one group of several hundred entities
             spec[key] = n
             cls = "count"
         elif r < 0.85:
             a = rng.choice([0, 0, 1, 5, 100])
             ln = rng.choice([1, 2, 2, 3, 4, 7, 12])
+            if r < 0.32:
+                ln = [256, 257, 300, 1000][int(r * 200) % 4]
             spec["from"], spec["to"] = a, a + ln - 1
             n = ln
             cls = "range"
